@@ -16,7 +16,7 @@ from .c10 import bottom_of
 TC = kp.TokenCategory
 E = kp.Encoding
 ENC = {'kern': E.normalizedKern, 'ekern': E.eKern, 'bkern': E.bKern, 'bekern': E.bEkern, 'akern': E.agnosticKern, 'aekern': E.agnosticExtendedKern}
-SEQ = ['k', 'i', 'b', 'd', 'd', 'S0', 'd', 'c', 'd', 'J0', 'i', 'b', 'd', 'z', 'b']
+SEQ = ['k', 'i', 'b', 'd', 'd', 'S0', 'd', 'c', 'd', 'J0', 'k', 'b', 'd', 'z', 'i', 'd', 'b']
 SELECTIONS = [('none', None, None)] + [(f'exclude-{t}', None, (t,)) for t in catref.TOP] + [
     ('exclude-PITCH', None, ('PITCH',)), ('exclude-DURATION', None, ('DURATION',)), ('exclude-DECORATION', None, ('DECORATION',)),
     ('include-core-structural-barlines', ('CORE', 'STRUCTURAL', 'BARLINES'), None),
@@ -117,6 +117,23 @@ def _job(job):
                         out2 = f'{type(e).__name__}: {str(e)[:80]}'
                     if out2 != out:
                         acc.violation(Viol('explicit-default', 'differs-from-omitting-the-option', dict(case, explicit=key, value=repr(val)[:60]), out, out2))
+    if part == 0:
+        # the options-OBJECT interface (Exporter.export_string / kp.export): one ExportOptions instance reused for a smaller document first
+        small, _ = kp.loads('**kern\n*clefG2\n=1\n4c\n=2\n4d\n*-\n')
+        for label, mk, enc, S in (('default', lambda: kp.ExportOptions(), 'kern', catref.ALL),
+                                  ('ekern-no-decoration', lambda: kp.ExportOptions(kern_type=E.eKern, token_categories=[c for c in TC if c != TC.DECORATION]), 'ekern',
+                                   catref.ALL - {'DECORATION'})):
+            opts = mk()
+            case = {'doc': name, 'seed': seed, 'tier': tier, 'text': text, 'options_object': label}
+            acc.count('transitions', 2)
+            try:
+                kp.Exporter().export_string(small, opts)
+                out = kp.Exporter().export_string(doc, opts)
+            except Exception as e:  # noqa
+                acc.violation(Viol('options-object-reused', 'raises', case, 'text', f'{type(e).__name__}: {str(e)[:100]}'))
+                continue
+            for sym, detail in compare_export(m, out, enc, None, S, ctxm, bottom_of)[:1]:
+                acc.violation(Viol('options-object-reused', 'result-depends-on-an-earlier-export-with-the-same-options-object', case, None, detail))
     if di == 0 and part == 0:
         acc.sample({'doc': name, 'text': text, 'options': 'spine id subsets x type subsets x 23 selections x 6 encodings'})
     return acc
@@ -135,6 +152,11 @@ def run(ctx):
 
 def replay(case):
     acc = Acc()
+    if 'options_object' in case:
+        fam = family(case.get('tier', 'quick'), case.get('seed', 0))
+        di = [n for n, _ in fam].index(case['doc'])
+        d = _job((di, case.get('tier', 'quick'), case.get('seed', 0), 0, 10 ** 9))
+        return [v for v in d.viol if v['cls'] == 'options-object-reused']
     for name, m in family(case.get('tier', 'quick'), case.get('seed', 0)):
         if name != case['doc']:
             continue
